@@ -19,10 +19,9 @@ META = dict(
           "special literals are decided before the stream and give NaN/+-Inf/true/false; character level: "
           "trimWhiteSpace/toLower/cleanUp leave no leading/trailing blank and no upper-case letter (loop contracts). "
           "Value-exact round trips (printf/strtod, Serialize, the XML reader) are not decided. "
-          "XML writer, escaping side (checks/part_c32_xml.py): TiXmlBase::EncodeString (two loops under loop contracts, any length), TiXmlAttribute::Print and the "
-          "non-CDATA text printers, cut from tinyxml.cpp each run: the output is the ghost-indexed concatenation of enc(c_i), has no raw < > (nor a raw quote unless "
-          "keepQuotes), every & starts one of the five entities or &#xHH; of a control character, the attribute value text never contains its delimiter unescaped; "
-          "units xml.strict.* state this without the exception for the hexadecimal pass-through branch."),
+          "XML writer, escaping side (checks/part_c32_xml.py; hexCharRefLength, TiXmlBase::EncodeString and TiXmlAttribute::Print cut from tinyxml.cpp each run, loop contracts, "
+          "any length): the output is the ghost-indexed concatenation of enc(c_i) with well-formed &#x<hexdigits>; references copied, contains no raw < > (nor a raw quote unless "
+          "keepQuotes), every & starts an entity or a character reference, and the written attribute value never contains its delimiter unescaped."),
     note=("Assumed: the abstract stream contract (operator>> consumes the longest valid prefix, fail() iff none, eofbit "
           "only at end of text, std::ws sets eofbit iff only blanks remain), std::string==literal by ghost "
           "classification, NTraits<T>::getNaN/getInfinity, <cctype> isspace/tolower tables. Trusted: CBMC 6.11, extractor rules."),
@@ -147,6 +146,8 @@ def main(ctx):
     ctx.explanation = ("Proved (unbounded, all classifications of the text): tryConvertToBool/Float/Double and tryConvertStringTo<T> return true iff "
                        "the text is a special literal or a valid literal followed only by white space, with the documented values for the special literals; "
                        "consumedWholeString == ACCEPTS; trimWhiteSpace/toLower/cleanUp character-level postconditions with loop contracts (any length). "
+                       "XML writer (units xml.*): hexCharRefLength, TiXmlBase::EncodeString (loop contract, any length) and TiXmlAttribute::Print against the escaping contract; "
+                       "every dfcc unit of that part has a reachability guard (xml.reach.*). "
                        "Assumed: the abstract stream contract and the other items in 'assumptions'. Not decided: see clauses_not_decided.")
     return ctx.finish(replayer=lambda ob: replay(ctx, ob))
 
